@@ -164,8 +164,14 @@ TABLE = {
             "transform's function applied to the measurement values of the listed symbols in the listed order equals the "
             "value of the written expression; the listed symbols are exactly the registers written, each once; register "
             "numbers are those of the symbols in the same order; an argument is wrapped iff it mentions a register, plain "
-            "values stay plain. Correspondence and oracle: func(values in regrefs order) vs the written formula on the "
-            "real RegRefTransform objects.",
+            "values stay plain. Expression level (Props/C08Script.lean, C08_transform_computes_written_formula): for every "
+            "written argument expression over registers (all fourteen expression forms, variables, array elements, "
+            "functions of numbers), the transform built for it, applied to the values of its listed registers in its "
+            "listed order, returns what the evaluator computes for the expression with the values written in place of "
+            "the registers (substR); hypotheses LawfulFmt and RecipLaw, witness by kernel evaluation with the registers "
+            "listed in reverse. Correspondence and oracle: func(values in regrefs order) vs the written formula on the "
+            "real RegRefTransform objects; SUBSTR: the model's script with values written in is loaded by the "
+            "implementation and compared argument by argument with the transforms of the original program.",
             "Lean 4 proof (induction over expressions, permutation lemmas) + correspondence", "DESIGN.md 7 (C08)",
             "SymPy's simplification and lambdify are a contract boundary (registers that cancel identically are outside "
             "the property and not generated)."),
